@@ -199,6 +199,15 @@ def build_array(spec, form=0):
             a = DimArray(vals, axes=(dims[0], labs[0]))
         else:
             a = DimArray(vals, axes=[labs[0]], dims=dims[0])
+    elif form == 13:  # a dict of plain lists (rank 2), or nested lists through from_nested, with labels= for every level
+        if vals.ndim == 2 and 0 not in vals.shape and spec["dtype"] in ("f8", "i8"):
+            l0 = labs[0].tolist()
+            if len(l0) % 2:
+                a = DimArray({k: vals[i].tolist() for i, k in enumerate(l0)}, dims=list(dims), labels=[l.tolist() for l in labs])
+            else:
+                a = DimArray.from_nested(vals.tolist(), dims=list(dims), labels=[l.tolist() for l in labs])
+        else:
+            a = DimArray(vals, axes=[(d, l) for l, d in zip(labs, dims)])
     elif form == 12:  # the array() helper with (name, labels) pairs
         import dimarray
         a = dimarray.array(vals, axes=[(d, l) for l, d in zip(labs, dims)])
